@@ -521,6 +521,8 @@ DEEP = [
     # a trip shared by two vehicles; the FIRST vehicle of its formation hands it to a third, real vehicle (formation order: replace, not remove + add)
     (0, [('spawn', 0, [4]), ('spawn', 0, [4]), ('spawn', 0, [5]), ('override_reassign', 4, 4, 'veh_0', 'veh_2')]),
     (0, [('spawn', 0, [4]), ('spawn', 0, [4]), ('spawn', 0, [5]), ('fit_reassign', 4, 4, 'veh_0', 'veh_2')]),
+    # the receiver loses a MAINTENANCE SLOT through the conflict with the moved trip (no dummy tour is created for a displaced slot)
+    (0, [('spawn', 0, [7]), ('spawn', 0, [4]), ('override_reassign', 4, 4, 'veh_1', 'veh_0')]),
 ]
 # two vehicle types (variant 1: depots 0..5, trips 6,7 of type 0, trip 8 of type 1, slot 9): type compatibility across reassignments
 DEEP_TYPES = [      # variant 2: depots 0..3, trip 4 of type 0, trip 5 of type 1, slot 6
